@@ -12,6 +12,7 @@ COQ = os.path.join(ROOT, 'coq')
 BUILD = os.path.join(ROOT, 'build')
 PY = '/venv/bin/python'
 NPROC = int(os.environ.get('VERIF_NPROC', '12'))
+TAG = 'x'      # set by check.py to the property id: scratch directories are per property, so checks can run side by side
 
 
 # ------------------------------------------------------------------ Coq term printing
@@ -92,11 +93,15 @@ def mapping(rows):
 # ------------------------------------------------------------------ running Coq
 def make_coq(targets=None, timeout=1800):
     """(re)build the Coq development (full .vo).  Returns (ok, output)."""
-    if not os.path.exists(os.path.join(COQ, 'Makefile')):
-        subprocess.run(['coq_makefile', '-f', '_CoqProject', '-o', 'Makefile'], cwd=COQ,
-                       stdout=subprocess.PIPE, stderr=subprocess.STDOUT)
-    cmd = ['timeout', str(timeout), 'make', '-j%d' % NPROC] + (targets or [])
-    p = subprocess.run(cmd, cwd=COQ, stdout=subprocess.PIPE, stderr=subprocess.STDOUT, text=True)
+    import fcntl
+    os.makedirs(BUILD, exist_ok=True)
+    with open(os.path.join(BUILD, '.make.lock'), 'w') as lk:
+        fcntl.flock(lk, fcntl.LOCK_EX)          # one make at a time in coq/
+        if not os.path.exists(os.path.join(COQ, 'Makefile')):
+            subprocess.run(['coq_makefile', '-f', '_CoqProject', '-o', 'Makefile'], cwd=COQ,
+                           stdout=subprocess.PIPE, stderr=subprocess.STDOUT)
+        cmd = ['timeout', str(timeout), 'make', '-j%d' % NPROC] + (targets or [])
+        p = subprocess.run(cmd, cwd=COQ, stdout=subprocess.PIPE, stderr=subprocess.STDOUT, text=True)
     return p.returncode == 0, p.stdout
 
 
@@ -182,7 +187,7 @@ def run_coq_exprs(tag, imports, exprs, chunk=20, timeout=900, defs=''):
     """Evaluate the Coq expressions (all of one type) with vm_compute, in parallel shards.
     Returns the list of parsed values (same order).  Raises RuntimeError with the coqc
     output if a shard fails."""
-    d = os.path.join(BUILD, 'cases', tag)
+    d = os.path.join(BUILD, 'cases', TAG + '_' + tag)
     shutil.rmtree(d, ignore_errors=True)
     os.makedirs(d)
     shards = [exprs[i:i + chunk] for i in range(0, len(exprs), chunk)]
@@ -225,7 +230,7 @@ def run_coq_exprs(tag, imports, exprs, chunk=20, timeout=900, defs=''):
 def run_impl(probe, specs, timeout=1800, nproc=None):
     """run harness/impl_worker.py <probe> on the specs in parallel processes against /repo"""
     nproc = nproc or NPROC
-    d = os.path.join(BUILD, 'impl', probe)
+    d = os.path.join(BUILD, 'impl', TAG + '_' + probe)
     shutil.rmtree(d, ignore_errors=True)
     os.makedirs(d)
     n = max(1, min(nproc, len(specs)))
